@@ -38,6 +38,9 @@ def run(ctx):
     R.rule_R7_parts_unmodified(ctx, typer)
     R.rule_R8_split_unfiltered(ctx, typer)
     R.rule_R9_component_dispatch(ctx, typer, "get")
+    R.rule_R11_attr_value_truth(ctx, typer)
+    from .common import rule_format_templates
+    rule_format_templates(ctx, typer, [f for f in ctx.p.all_funcs if f.module.relpath == R.RES], "R10")
     ctx.floor("R9", 4)
     R.rule_G2_all_caches(ctx, typer)
     ctx.floor("R6", 2)
